@@ -78,6 +78,9 @@ SPECIAL = {
     "two_sources_containers": 'class Box:\n    def __init__(self):\n        self.f = None\n\ndef handler(p_x):\n    t = source()\n    d = {"k": t}\n    xs = [t, 1]\n'
                               '    o = Box()\n    o.f = t\n    u = source2()\n    w = u + "x"\n    sink(d)\n    sink(xs)\n    sink(o)\n    sink2(w)\n    q = source2()\n    sink2(q)\n\nhandler("a")\n',
     "later_source_earlier_container": 'def handler(p_x):\n    d = {"k": 1}\n    a = source()\n    d["k"] = a\n    b = source2()\n    e = [b]\n    sink(d)\n    sink2(e)\n    c = source()\n    sink2(c)\n\nhandler("a")\n',
+    # methods whose name is the name of a plain-function rule: audit.sink(v) / r.source() are not the functions the rules name
+    "method_named_like_a_function_rule": 'class Audit:\n    def sink(self, x):\n        return 0\n\n    def source(self):\n        return "d"\n\n'
+                                         'def handler(p_x):\n    v0 = source()\n    r = Audit()\n    w = r.sink(v0)\n    z = ext.sink(v0)\n    u = r.source()\n    sink2(u)\n    k = "c"\n    sink(k)\n\nhandler("a")\n',
     "parameter_named_like_a_call_rule": 'def handler(source, sink):\n    sink(source)\n    v = sink\n    sink(v)\n\nhandler("a", print)\n',
 }
 PY_FLOW = 'def handler(p_x):\n    v0 = source()\n    sink(v0)\n\nhandler("a")\n'
